@@ -142,16 +142,35 @@ Proof.
   destruct (dist_lt _ _ _); [reflexivity | discriminate].
 Qed.
 
+Lemma wn_with_prefilter_harmless : forall (pres : wn_params -> frame -> triplet -> bool) p t fs,
+  (forall f tr, pres p f tr = true -> wn_close p f tr = true) ->
+  wernet_nilsson_with pres p t fs =
+  match bond_triplets (wn_ew p) (wn_sc p) t with
+  | ErrNoBonds => ErrNoBonds
+  | Ok trip => Ok (map (fun f => filter (fun tr => pres p f tr) trip) fs)
+  end.
+Proof.
+  intros pres p t fs Hc. unfold wernet_nilsson_with. destruct (bond_triplets _ _ t) as [trip|]; [|reflexivity].
+  f_equal. apply map_ext_in. intros f Hf. apply filter_filter_implied. intros tr Hp.
+  apply existsb_exists. exists f. split; [assumption | now apply Hc].
+Qed.
+
 Lemma wn_prefilter_harmless : forall p t fs,
   wernet_nilsson p t fs =
   match bond_triplets (wn_ew p) (wn_sc p) t with
   | ErrNoBonds => ErrNoBonds
   | Ok trip => Ok (map (fun f => filter (fun tr => wn_presence p f tr) trip) fs)
   end.
+Proof. intros. apply wn_with_prefilter_harmless. intros f tr. apply wn_presence_close. Qed.
+
+Lemma wn_sure_close : forall p f tr, wn_sure p f tr = true -> wn_close p f tr = true.
 Proof.
-  intros p t fs. unfold wernet_nilsson. destruct (bond_triplets _ _ t) as [trip|]; [|reflexivity].
-  f_equal. apply map_ext_in. intros f Hf. apply filter_filter_implied. intros tr Hp.
-  apply existsb_exists. exists f. split; [assumption | now apply wn_presence_close].
+  intros p f ((d, h), a). unfold wn_sure, wn_close. destruct (dist_lt _ _ _); [reflexivity | discriminate].
+Qed.
+
+Lemma wn_maybe_close : forall p f tr, wn_maybe p f tr = true -> wn_close p f tr = true.
+Proof.
+  intros p f ((d, h), a). unfold wn_maybe, wn_close. destruct (dist_lt _ _ _); [reflexivity | discriminate].
 Qed.
 
 (* ================================================================= Baker-Hubbard rule *)
